@@ -77,6 +77,10 @@ MkAuto(p) ==
 Run(p) ==
   /\ pc[p] = "auto"
   /\ IF ParseFail(p) \/ LibExit(p) THEN Fail(p, 2)
+     ELSE IF Fault(p) = "fsizerep"                               \* the report cannot be written completely into the output directory
+          THEN /\ Name(p, "outdir") \in DOMAIN outdir
+               /\ outdir' = [outdir EXCEPT ![Name(p, "outdir")] = @ \cup {<<"partial", sit[p].format, p>>}]
+               /\ pc' = [pc EXCEPT ![p] = "wfail"] /\ UNCHANGED <<sit, tmp, cwd, stdout, stderr, exit, readFrom, written>>
      ELSE /\ Name(p, "outdir") \in DOMAIN outdir
           /\ outdir' = [outdir EXCEPT ![Name(p, "outdir")] = @ \cup {<<r[1], r[2], p>> : r \in Reports(p)}]
           /\ pc' = [pc EXCEPT ![p] = "ran"] /\ UNCHANGED <<sit, tmp, cwd, stdout, stderr, exit, readFrom, written>>
@@ -116,7 +120,7 @@ AllDone == \A p \in Procs : pc[p] = "exited"
 \* C19.  AllowedExit: 1 for missing / empty input, 2 when report generation fails.  Input that exists but cannot be
 \* decoded may be called "unreadable input" (1) or a failed generation (2); the help text documents 3 for an existing
 \* --output target while the statement lists only 0 / 1 / 2: both are accepted.
-WantExit(p) == IF BadInput(p) THEN 1 ELSE IF ParseFail(p) \/ LibExit(p) \/ Undecodable(p) \/ EmitFail(p) \/ Fault(p) = "fsize" THEN 2 ELSE 0
+WantExit(p) == IF BadInput(p) THEN 1 ELSE IF ParseFail(p) \/ LibExit(p) \/ Undecodable(p) \/ EmitFail(p) \/ Fault(p) \in {"fsize", "fsizerep"} THEN 2 ELSE 0
 \* an own report definition that the library refuses: the command succeeds (F44); calling it a failed generation (2, nothing
 \* emitted, nothing left behind) would also honour the statement
 \* diagnostics that cannot be written (stderr on a full device): the statement does not say whether that is a failure of its own;
